@@ -34,8 +34,13 @@ Fragments(t, from) ==
               a == IdentStart(t, o - 1)
               z == FindClose(t, o + 1)
           IN <<SubSeq(t, a, z)>> \o Fragments(t, z + 1)
-\* an upper-case call inside a fragment: upper-case letters immediately followed by "("
-HasUpperCall(f) == \E i \in 2..Len(f) : f[i] = 40 /\ IsUpperCh(f[i - 1]) /\ FindClose(f, i + 1) # 0
+\* a fragment is an upper-case (Excel) function call when the identifier it starts with - the function's own name - consists of
+\* upper-case letters and digits only and starts with a letter (SUM, LOG10, SUMX2MY2; not getX, not Sum, not eval)
+IsDigitCh(ch) == ch \in 48..57
+RECURSIVE NameEnd(_, _)
+NameEnd(f, i) == IF i <= Len(f) /\ f[i] # 40 THEN NameEnd(f, i + 1) ELSE i        \* position of the first "("
+HasUpperCall(f) == LET e == NameEnd(f, 1) IN
+  e > 1 /\ e <= Len(f) /\ IsUpperCh(f[1]) /\ \A i \in 1..(e - 1) : IsUpperCh(f[i]) \/ IsDigitCh(f[i])
 \* "listed" / "clean" / "oos" (a cell mixing upper-case calls with other call syntax is not pinned by the statement)
 Judge(t) == LET fs == Fragments(t, 1) up == {i \in 1..Len(fs) : HasUpperCall(fs[i])} IN
   IF fs = <<>> THEN [v |-> "clean", fs |-> <<>>]
